@@ -103,14 +103,15 @@ def chunks (n : Nat) : Nat → Bytes → List Bytes
 
 /-- `_build_headers_frames`: returns the header block fragments (first one for the
     HEADERS / PUSH_PROMISE frame, the rest for CONTINUATION frames) -/
-def buildHeaderBlocks (cfg : Config) (headers : List Header) (fl : HdrFlags) : SH (List Bytes) := do
+def buildHeaderBlocks (cfg : Config) (headers : List Header) (fl : HdrFlags) (overhead : Int) : SH (List Bytes) := do
   let hs := if cfg.normOut then normalizeOutbound headers else headers
   let hs ← if cfg.valOut then liftExcept (validateOutbound hs fl) else pure hs
   let encoded ← onHp (Hp.encode hs)
   let s ← getS
   if s.1.maxOutFrame ≤ 0 then raise (.py .ValueError) else
-  let blocks := chunks s.1.maxOutFrame.toNat (encoded.length + 1) encoded
-  pure (if blocks.isEmpty then [[]] else blocks)
+  -- `[encoded[:first]] + [encoded[i:i+max] for i in range(first, len(encoded), max)]`
+  let first := (s.1.maxOutFrame - overhead).toNat
+  pure (encoded.take first :: chunks s.1.maxOutFrame.toNat (encoded.length + 1) (encoded.drop first))
 
 def mkHeaderFrames (first : Bytes → Bool → Frame) (sid : Int) (blocks : List Bytes) : List Frame :=
   match blocks with
@@ -130,7 +131,8 @@ def Stream.upgrade (clientSide : Bool) : M Stream Unit := do
   let _ ← processInput (if clientSide then .UPGRADE_CLIENT else .UPGRADE_SERVER)
   pure ()
 
-def Stream.sendHeaders (cfg : Config) (headers : List Header) (endStream : Bool) : SH (List Frame) := do
+def Stream.sendHeaders (cfg : Config) (headers : List Header) (endStream : Bool) (priorityPresent : Bool := false) :
+    SH (List Frame) := do
   let s ← getS
   let informational ← if s.1.sm.client != some true then liftExcept (isInformationalResponse headers) else pure false
   if informational && endStream then raise protoErr' else
@@ -140,7 +142,7 @@ def Stream.sendHeaders (cfg : Config) (headers : List Header) (endStream : Bool)
   if s.1.sm.trailersSent && !endStream then raise protoErr' else
   if s.1.sid == 0 then raise (.py .InvalidDataError) else
   let fl ← onStream (buildHdrFlags events)
-  let blocks ← buildHeaderBlocks cfg headers fl
+  let blocks ← buildHeaderBlocks cfg headers fl (if priorityPresent then 5 else 0)
   let sid := s.1.sid
   let frames := mkHeaderFrames (fun b eh => Frame.headers sid b false eh none none) sid blocks
   let frames ← if endStream then do
@@ -160,7 +162,7 @@ def Stream.pushStreamInBand (cfg : Config) (related : Int) (headers : List Heade
   let s ← getS
   if s.1.sid == 0 then raise (.py .InvalidDataError) else
   let fl ← onStream (buildHdrFlags events)
-  let blocks ← buildHeaderBlocks cfg headers fl
+  let blocks ← buildHeaderBlocks cfg headers fl 4
   let sid := s.1.sid
   pure (mkHeaderFrames (fun b eh => Frame.pushPromise sid related b eh none) sid blocks)
 
